@@ -50,15 +50,15 @@ var c06Classes = []c06Class{
 	{name: "dense-missing-ids", strict: true},
 	{name: "dense-missing-lat", strict: true},
 	{name: "dense-missing-lon", strict: true},
-	{name: "oob-dense-user", args: []int64{0, 1000}, strict: true},
-	{name: "oob-dense-keyvals", args: []int64{0, 1000}, strict: true},
-	{name: "oob-way-key", args: []int64{0, 1000}, strict: true},
-	{name: "oob-way-val", args: []int64{0, 1000}, strict: true},
-	{name: "oob-way-user", args: []int64{0, 1000}, strict: true},
-	{name: "oob-rel-key", args: []int64{0, 1000}, strict: true},
-	{name: "oob-rel-val", args: []int64{0, 1000}, strict: true},
-	{name: "oob-rel-user", args: []int64{0, 1000}, strict: true},
-	{name: "oob-rel-role", args: []int64{0, 1000}, strict: true},
+	{name: "oob-dense-user", args: []int64{0, 1000, 1 << 31, 1<<32 - 1}, strict: true},
+	{name: "oob-dense-keyvals", args: []int64{0, 1000, 1 << 31, 1<<32 - 1}, strict: true},
+	{name: "oob-way-key", args: []int64{0, 1000, 1 << 31, 1<<32 - 1}, strict: true},
+	{name: "oob-way-val", args: []int64{0, 1000, 1 << 31, 1<<32 - 1}, strict: true},
+	{name: "oob-way-user", args: []int64{0, 1000, 1 << 31, 1<<32 - 1}, strict: true},
+	{name: "oob-rel-key", args: []int64{0, 1000, 1 << 31, 1<<32 - 1}, strict: true},
+	{name: "oob-rel-val", args: []int64{0, 1000, 1 << 31, 1<<32 - 1}, strict: true},
+	{name: "oob-rel-user", args: []int64{0, 1000, 1 << 31, 1<<32 - 1}, strict: true},
+	{name: "oob-rel-role", args: []int64{0, 1000, 1 << 31, 1<<32 - 1}, strict: true},
 	{name: "dense-short-lat", strict: true},
 	{name: "dense-short-lon", strict: true},
 	{name: "dense-short-version", strict: true},
